@@ -18,7 +18,7 @@ import (
 	"github.com/flamego/flamego/verifharness/internal/rt"
 )
 
-const rule = "case = a registration program: a tree of Group(path, handlers, body) nested up to 3 deep (empty, static and dynamic group paths, 0..2 group handlers), containing Get..Trace, Route, Any, Routes (comma list with blanks and lower case / several method strings), Combo (common handlers + 1..4 methods) and AutoHead(on/off) toggles anywhere; handler lists are passed as fresh variadics or as sub-slices with spare capacity. Route paths are distinct by construction. " +
+const rule = "case = a registration program: a tree of Group(path, handlers, body) nested up to 3 deep (empty, static and dynamic group paths, 0..2 group handlers), containing Get..Trace, Route, Any, Routes (comma list with blanks and lower case / several method strings), Combo (common handlers + 1..4 methods) and AutoHead(on/off) toggles anywhere; handler lists are passed as fresh variadics or as sub-slices with spare capacity. Route paths are distinct by construction; a group with a static path of its own may also declare its own route with the empty path. " +
 	"Oracle: an own flatten(program) = list of (method, full path, handler ids, outer group first). Flame P is built from the program, Flame Q from the flat list with Route(method, path, handlers); for every registered path x all nine methods the handler-id trace and the parameters of P must equal those of Q and flatten's expectation. Also: Combo with a repeated method must panic. " +
 	"non-trivial = a program with nesting depth >= 2, or a Combo with >= 2 methods, or an AutoHead toggle between two GET routes, or sibling routes inside a nested group with group handlers; distinct by case text"
 
@@ -470,9 +470,19 @@ func (g *gstate) routePath(t *rapid.T) string {
 	return p
 }
 
-func (g *gstate) nodes(t *rapid.T, depth int) []Node {
+func (g *gstate) nodes(t *rapid.T, depth int, own string) []Node {
 	var out []Node
 	n := rapid.IntRange(1, 4).Draw(t, "nnodes")
+	// once per group with a path of its own: the route of the group itself,
+	// declared with the empty path
+	usedEmpty := own == ""
+	routePath := func() string {
+		if !usedEmpty && rapid.IntRange(0, 5).Draw(t, "emptypath") == 0 {
+			usedEmpty = true
+			return ""
+		}
+		return g.routePath(t)
+	}
 	for i := 0; i < n; i++ {
 		k := rapid.IntRange(0, 11).Draw(t, "nk")
 		spare := rapid.Bool().Draw(t, "spare")
@@ -487,34 +497,38 @@ func (g *gstate) nodes(t *rapid.T, depth int) []Node {
 				gp = fmt.Sprintf("%s%d", gp, g.routeN)
 			}
 			node := Node{K: "group", Path: gp, H: rapid.IntRange(0, 2).Draw(t, "gh"), Spare: spare}
-			node.Children = g.nodes(t, depth+1)
+			own := gp
+			if strings.HasPrefix(gp, "/{") {
+				own = "" // two such groups side by side would differ in the bind name only
+			}
+			node.Children = g.nodes(t, depth+1, own)
 			out = append(out, node)
 		case k < 5:
-			out = append(out, Node{K: "method", Path: g.routePath(t), Methods: []string{"GET"}, H: rapid.IntRange(0, 2).Draw(t, "h"), Spare: spare})
+			out = append(out, Node{K: "method", Path: routePath(), Methods: []string{"GET"}, H: rapid.IntRange(0, 2).Draw(t, "h"), Spare: spare})
 		case k < 6:
 			m := model.Methods[rapid.IntRange(1, len(model.Methods)-1).Draw(t, "m")]
-			out = append(out, Node{K: "method", Path: g.routePath(t), Methods: []string{m}, H: rapid.IntRange(0, 2).Draw(t, "h"), Spare: spare})
+			out = append(out, Node{K: "method", Path: routePath(), Methods: []string{m}, H: rapid.IntRange(0, 2).Draw(t, "h"), Spare: spare})
 		case k < 7:
 			m := nonGet[rapid.IntRange(0, len(nonGet)-1).Draw(t, "m")]
 			if rapid.Bool().Draw(t, "lower") {
 				m = strings.ToLower(m)
 			}
-			out = append(out, Node{K: "route", Path: g.routePath(t), Methods: []string{m}, H: rapid.IntRange(0, 2).Draw(t, "h"), Spare: spare})
+			out = append(out, Node{K: "route", Path: routePath(), Methods: []string{m}, H: rapid.IntRange(0, 2).Draw(t, "h"), Spare: spare})
 		case k < 8:
-			out = append(out, Node{K: "any", Path: g.routePath(t), H: rapid.IntRange(0, 2).Draw(t, "h"), Spare: spare})
+			out = append(out, Node{K: "any", Path: routePath(), H: rapid.IntRange(0, 2).Draw(t, "h"), Spare: spare})
 		case k < 9:
 			ms := pickDistinct(t, nonGet, rapid.IntRange(1, 3).Draw(t, "nm"))
 			if rapid.Bool().Draw(t, "lower") {
 				ms[0] = strings.ToLower(ms[0])
 			}
-			out = append(out, Node{K: "routes", Path: g.routePath(t), Methods: ms, Form: []string{"list", "args"}[rapid.IntRange(0, 1).Draw(t, "form")], H: rapid.IntRange(1, 2).Draw(t, "h"), Spare: spare})
+			out = append(out, Node{K: "routes", Path: routePath(), Methods: ms, Form: []string{"list", "args"}[rapid.IntRange(0, 1).Draw(t, "form")], H: rapid.IntRange(1, 2).Draw(t, "h"), Spare: spare})
 		case k < 11:
 			pool := append([]string{"GET"}, nonGet...)
 			if !g.autoHead {
 				pool = append(pool, "HEAD")
 			}
 			ms := pickDistinct(t, pool, rapid.IntRange(1, 4).Draw(t, "nm"))
-			out = append(out, Node{K: "combo", Path: g.routePath(t), Methods: ms, Common: rapid.IntRange(0, 2).Draw(t, "common"), H: rapid.IntRange(0, 2).Draw(t, "h"), Spare: spare})
+			out = append(out, Node{K: "combo", Path: routePath(), Methods: ms, Common: rapid.IntRange(0, 2).Draw(t, "common"), H: rapid.IntRange(0, 2).Draw(t, "h"), Spare: spare})
 		default:
 			g.autoHead = !g.autoHead
 			out = append(out, Node{K: "autohead", On: g.autoHead})
@@ -534,7 +548,7 @@ func pickDistinct(t *rapid.T, pool []string, n int) []string {
 func TestProp(t *testing.T) {
 	evid.Rapid(t, "program", 2000, 30000, func(t *rapid.T) {
 		g := &gstate{}
-		c := Case{Program: g.nodes(t, 0)}
+		c := Case{Program: g.nodes(t, 0, "")}
 		evid.Run(t, "program", c, func() evid.Outcome { return checkCase(c) })
 	})
 }
